@@ -372,12 +372,13 @@ def _unescape_once(s):
     return "".join(out)
 
 
-def validate(module, cfg, traces, wd=None, timeout=900, extra_env=None, shard=4000, workers=1, quiet=False):
+def validate(module, cfg, traces, wd=None, timeout=900, extra_env=None, shard=4000, workers=1, quiet=False, multi=False):
     """validate a list of traces (each a list of event dicts, or any JSON value the trace spec understands)
     with the total monitor spec/<module>.tla.  Returns (verdicts list aligned with traces, stats).
     A verdict is dict(tid, at, clause, detail)."""
     wd = wd or workdir("trace_" + cfg)
     verdicts = [None] * len(traces)
+    allbad = [[] for _ in traces]
     stats = dict(generated=0, distinct=0, runs=0, wall=0.0)
     shard = max(300, min(shard, -(-len(traces) // 16)))   # spread over the 16 cores
     jobs = []
@@ -413,6 +414,8 @@ def validate(module, cfg, traces, wd=None, timeout=900, extra_env=None, shard=40
             v = parse_value("<<" + _unescape_once(m.group(1)) + ">>")
             tid = int(v[0]) - 1 + k
             rec = dict(tid=tid, at=v[1], clause=v[2], detail=v[3] if len(v) > 3 else None, extra=v[4:])
+            if rec["clause"] != "ok":
+                allbad[tid].append(rec)
             if verdicts[tid] is not None and verdicts[tid]["clause"] != rec["clause"]:
                 # keep the earliest failure
                 if verdicts[tid]["clause"] == "ok" or (rec["clause"] != "ok" and rec["at"] < verdicts[tid]["at"]):
@@ -431,6 +434,8 @@ def validate(module, cfg, traces, wd=None, timeout=900, extra_env=None, shard=40
     if missing:
         raise TlcError("trace validation produced no verdict for traces %s (%s/%s)\n%s" % (
             missing[:5], module, cfg, results[0][1]["stdout"][-2000:]))
+    if multi:
+        return [sorted(b, key=lambda r: r["at"]) for b in allbad], stats
     return verdicts, stats
 
 
